@@ -40,6 +40,8 @@ PROPS = {
         not_decided="that parse_primary_with_options builds each revision's table faithfully from bytes; the recovery scan that produces the headers; object-stream extraction and the reader's object cache (get_compressed_object: covered only by the bounded stand-in `revisions`)",
     ),
     "C10": dict(
+        verus=["strings", "lexer"],
+        standins=["objects", "notes-history"],
         kani=[K("c10_text_kernel_ascii", "text/encoding.rs", "winansi_decode_char (reader's non-BOM text path)"),
               K("c10_text_kernel_non_ascii", "text/encoding.rs", "winansi_decode_char (reader's non-BOM text path)")],
         not_decided="the glue: that decode_text_string is that per-byte map and that each emission site emits those bytes (String/iterator code outside both verifiers); UTF-16BE/BOM path of incremental_text_notes::pdf_text",
@@ -94,7 +96,8 @@ PROPS = {
         not_decided="AES paths (dependency crates), password->key derivation end to end, unlock_with_password, decrypt_object_if_needed, the trailer /Encrypt clause of write_xref_stream",
     ),
     "C13": dict(
-        verus=["warray"],
+        verus=["warray", "cmaprange"],
+        standins=["embedded-font"],
         level_text="the /W run-grouping block of generate_width_array: expanding the emitted array (ISO 32000-1 9.7.4.3) gives back exactly the code->width map it was built from; the rest of C13 is not decided",
         not_decided="ToUnicode text, CIDToGIDMap, glyph presence, the widths returned by get_glyph_widths, anything an independent extractor would check",
     ),
